@@ -137,14 +137,17 @@ Theorem reload_failure_not_closed :
 Proof. exact reload_failure_not_closed_l. Qed.
 
 (* ---- Shutdown() ------------------------------------------------------------------------------------------ *)
-(* Any number of Shutdown() calls (whole, or split in halves interleaved with anything) from any
-   state: the model's step is total (the double close is recovered), and the channel is closed
-   at most once over the whole run. *)
+(* Any number of Shutdown() calls (whole, or split in halves interleaved with anything and with
+   each other — the callers are any goroutines) from any state: the channel is closed at most once
+   over the whole run; a call in Closing/Closed does nothing; a call in Running/Starting leaves the
+   channel closed; a repeated call changes nothing and closes nothing; the only thing a call ever
+   touches is the channel. *)
 Theorem shutdown_idempotent_safe : forall o,
   (forall ls, count is_close_chan (snd (run o init ls)) <= 1) /\
   (forall s, st_phase s = Closed \/ st_phase s = Closing -> step o s LShutdownCall = (s, [])) /\
   (forall s, st_phase s = Running \/ st_phase s = Starting -> st_chan_closed (fst (step o s LShutdownCall)) = true) /\
-  (forall s, let s1 := fst (step o s LShutdownCall) in step o s1 LShutdownCall = (s1, [])) /\
+  (forall s, let s1 := fst (step o s LShutdownCall) in
+     fst (step o s1 LShutdownCall) = s1 /\ count is_close_chan (snd (step o s1 LShutdownCall)) = 0) /\
   (forall s, let s1 := fst (step o s LShutdownCall) in
      st_pc s1 = st_pc s /\ st_phase s1 = st_phase s /\ st_live s1 = st_live s /\ st_gen s1 = st_gen s /\
      st_sigs s1 = st_sigs s /\ st_watch s1 = st_watch s /\ st_async s1 = st_async s /\ st_ctx_done s1 = st_ctx_done s /\
@@ -153,6 +156,18 @@ Proof.
   exact (fun o => conj (close_once_l o) (conj (shutdown_noop_l o) (conj (shutdown_accepted_l o)
                  (conj (shutdown_idempotent_l o) (shutdown_only_closes_l o))))).
 Qed.
+
+(* The recover() inside Shutdown() is what makes that safe: there ARE schedules in which a close hits
+   the already closed channel — two callers that both pass the state check before either closes
+   (no "is it closed?" test in front of the close can exclude this: test and close of two callers
+   interleave the same way), or simply a second call while still Running/Starting.  In the model
+   that event is ARecovered; an implementation without the guard crashes the process there. *)
+Theorem recover_guard_is_exercised :
+  (exists o ls, ls = [LShutCheck; LShutCheck; LShutClose; LShutClose] /\
+                count is_recovered (snd (run o init ls)) = 1 /\ count is_close_chan (snd (run o init ls)) = 1) /\
+  (forall o s, (st_phase s = Running \/ st_phase s = Starting) -> st_chan_closed s = true ->
+               snd (step o s LShutdownCall) = [ARecovered]).
+Proof. exact recover_exercised_l. Qed.
 
 Print Assumptions phase_order.
 Print Assumptions phase_order_in_words.
@@ -170,3 +185,4 @@ Print Assumptions bringup_failure_cleans_up.
 Print Assumptions failure_returns_error.
 Print Assumptions reload_failure_not_closed.
 Print Assumptions shutdown_idempotent_safe.
+Print Assumptions recover_guard_is_exercised.
